@@ -1,6 +1,7 @@
 import MetadorModel.Py.DrvLib
 import MetadorModel.Model.Record
 import MetadorModel.Model.RecordKw
+import MetadorModel.Model.RecordStub
 import MetadorModel.Model.UBlock
 /-!
 Driver for the record model (C02, C03). Names travel hex-encoded.
@@ -10,6 +11,9 @@ Operations (one per line):
 * `openk <p|m> <mode> <manifest_file: hex name|-> <allow_baseless: 0|1> n <name>`  /  `openk … l <file>*`
   (the constructor with its optional keyword arguments), `commitk` (`commit_patch(manifest_exts=…)`)
 * `write <k>`, `read`, `create`, `commit`, `discard`, `close <0|1>`, `merge <name>`, `delete <name>`
+* `exit <0|1>` (`__exit__` at the end of a `with` block left normally / by an exception),
+  `stub <name> <manifest file>` (`IH5MFRecord.create_stub`; `Model/RecordStub.lean`; the outcome
+  `outside` = the directory no longer holds the containers the manifest describes: not modelled)
 * `find <name> <file>*` (find_files on a listing), `list <file>*` (list_records), `valid <name>`
 * `ubtext <hex of the whole file|->` — the framing part of `IH5UserBlock.load` (`UBlock.loadText`):
   `text <hex of the text handed to json.loads|->`, or `err ValueError` (no magic / three parts; size
@@ -96,6 +100,7 @@ def showRes (old : State) (r : Res) : String :=
 structure DS where
   s : State := {}
   last : List Name := []
+  stubs : List Nat := []   -- manifest uuids written by `create_stub` (`StS.stubMfs`)
 
 def apply (s : DS) (op : Op) : DS × String :=
   let r := step s.s op
@@ -118,6 +123,16 @@ def parseCls : String → Option Bool
 def applyK (s : DS) (op : OpK) : DS × String :=
   let r := stepK s.s op
   ({ s with s := r.st }, showRes s.s r)
+
+/-- a call of `Model/RecordStub.lean` (`__exit__`, `create_stub`, `merge_files` refused on stubs) -/
+def applyS (s : DS) (op : OpS) : DS × String :=
+  let t : StS := { s := s.s, stubMfs := s.stubs }
+  let r := stepS t op
+  let t' := afterS t op
+  let line := match op, r.out with
+    | .createStub _ _, .keyError => "outside"
+    | _, _ => showRes s.s r
+  ({ s with s := t'.s, stubs := t'.stubMfs }, line)
 
 def parseKw (mf bl : String) : Option OpenKw :=
   match (if mf == "-" then some none else (unhexName mf).map some), bl with
@@ -170,8 +185,14 @@ def step' (s : DS) : List String → DS × String
   | ["close", "0"] => apply { s with last := if s.s.h.closed then s.last else fileNames s.s.h } (.close false)
   | ["merge", n] =>
     match unhexName n with
-    | some n => apply s (.merge n)
+    | some n => applyS s (.kw (.base (.merge n)))
     | none => (s, "bad-op")
+  | ["exit", "0"] => applyS { s with last := if s.s.h.closed then s.last else fileNames s.s.h } (.exit false)
+  | ["exit", "1"] => applyS { s with last := if s.s.h.closed then s.last else fileNames s.s.h } (.exit true)
+  | ["stub", n, mf] =>
+    match unhexName n, unhexName mf with
+    | some n, some mf => applyS s (.createStub n mf)
+    | _, _ => (s, "bad-op")
   | ["delete", n] =>
     match unhexName n with
     | some n => apply s (.deleteFiles n)
